@@ -181,7 +181,7 @@ UNIT = dict(
     name="c01_fees", mode="K", properties=["C01"],
     shim_files=["shims/common.rs", "shims/seq.rs"],
     prelude=PRELUDE,
-    use="use crate::accounts::StateWriteExt as _;\nuse crate::fees_real::StateWriteExt as _;\nmod super_ { pub mod utils { pub use crate::fee; } }\nuse super_ as super_mod;",
+    use="use crate::accounts::*;\nuse crate::fees_real::StateWriteExt as _;\nmod super_ { pub mod utils { pub use crate::fee; } }\nuse super_ as super_mod;",
     items=[
         dict(file=ACC, path="struct InsufficientFunds", module="accounts"),
         dict(file=ACC, path="trait StateWriteExt/fn increase_balance", module="accounts"),
